@@ -662,7 +662,14 @@ impl DtlsInner {
                         // restart its message_seq at a value lower than what we expect
                         // (RFC 6347 §4.2.1 says restart at 0, but recv_message_seq may
                         // already be at 1 from the HVR). Sync to the server's counter.
-                        if ctx.post_hvr && is_client {
+                        // Only the ServerHello can open that flight: a late copy (or a
+                        // fragment) of the HelloVerifyRequest itself also carries a lower
+                        // message_seq, and syncing to it would rewind the counter so that
+                        // the real ServerHello is then refused as out of order - or, for a
+                        // whole copy, answer it with a second ClientHello that restarts the
+                        // transcript after the server has accepted the first.
+                        if ctx.post_hvr && is_client && msg.msg_type == HandshakeType::ServerHello
+                        {
                             debug!(
                                 "post-HVR: syncing recv_message_seq from {} to {} (server restart)",
                                 ctx.recv_message_seq, msg.message_seq
@@ -700,7 +707,8 @@ impl DtlsInner {
                         // restart its message_seq at a value different from what we
                         // expect (RFC 6347 says 0, but some implementations use 1).
                         // Sync our counter to the server's actual starting point.
-                        if ctx.post_hvr && is_client {
+                        if ctx.post_hvr && is_client && msg.msg_type == HandshakeType::ServerHello
+                        {
                             debug!(
                                 "post-HVR: syncing recv_message_seq from {} to {} (server restart)",
                                 ctx.recv_message_seq, msg.message_seq
